@@ -90,8 +90,13 @@ func checkDecode(t failer, d *desc, data []byte, mustFail bool, class string) (v
 	}
 	res := implDecode(d, data)
 	for i := 0; i < 3 && res.alloc > allocBound(len(data)) && res.panicked == nil; i++ {
-		// TotalAlloc also sees one-off runtime/reflect cache fills and other goroutines; noise only adds,
-		// so a genuine over-allocation shows on every repetition: keep the smallest measurement
+		if i > 0 && res.alloc > 64<<20 {
+			break // two measurements above 64 MiB: not noise, and not worth repeating
+		}
+		// TotalAlloc also sees allocations that are not the decoder's (one-off runtime/reflect cache fills;
+		// a non-reproducible delta of 7.8 MB was observed once in 2 million cases on a heavily loaded
+		// machine). Noise only adds and is not repeatable, a genuine over-allocation shows on every
+		// repetition: the smallest of up to four measurements is judged.
 		again := implDecode(d, data)
 		if again.alloc < res.alloc {
 			res = again
